@@ -152,8 +152,8 @@ func capPolygon(context *api.Context, center b6.Geometry, radius float64) (b6.Ar
 	if err := requireGeometry("cap-polygon", center); err != nil {
 		return nil, err
 	}
-	if p := center.Point(); math.IsNaN(radius) || math.IsNaN(p.X) || math.IsNaN(p.Y) || math.IsNaN(p.Z) {
-		return nil, fmt.Errorf("cap-polygon: center or radius is NaN")
+	if p := center.Point(); math.IsNaN(radius) || math.IsInf(radius, 0) || math.IsNaN(p.X) || math.IsNaN(p.Y) || math.IsNaN(p.Z) {
+		return nil, fmt.Errorf("cap-polygon: center or radius is NaN or infinite")
 	}
 	return b6.AreaFromS2Loop(s2.RegularLoop(center.Point(), b6.MetersToAngle(radius), 128)), nil
 }
